@@ -195,7 +195,7 @@ Variable sn : nat -> nat -> T.
 Hypothesis Hdiv : forall x y, x / y = x * (1 / y).
 (* what the model needs to know about the cosine table: cos 0, cos(k pi), cos(2 k pi - t) = cos t *)
 Hypothesis Hcs0 : forall N, cs N O = 1.
-Hypothesis HcsN : forall N k, cs N (N * k) = pm K k.
+Hypothesis HcsN : forall N k, 1 <= N -> cs N (N * k) = pm K k.
 Hypothesis Hcs_sym : forall N j k, j <= 2 * N -> cs N ((2 * N - j) * k) = cs N (j * k).
 Hypothesis HofZ_w : forall i, oofZ K (1 - Z.of_nat i * Z.of_nat i)%Z = 1 - fnat K i * fnat K i.
 
@@ -218,7 +218,7 @@ Proof.
       rewrite nth_tab by auto. replace (S (p - 1 - i)) with (p - i)%nat by lia. f_equal.
       replace (S (S p) + i)%nat with (2 * S p - (p - i))%nat by lia. apply Hcs_sym. lia. }
   rewrite <- (bsum_rev p (fun s => nth (S s) x 0 * cs (S p) (S s * k))).
-  rewrite bsum_S_l by auto. cbn [bsum]. change (0 * k)%nat with O. rewrite Hcs0, HcsN.
+  rewrite bsum_S_l by auto. cbn [bsum]. change (0 * k)%nat with O. rewrite Hcs0, HcsN by lia.
   unfold dct1. replace (S (S p) - 2)%nat with p by lia. replace (S (S p) - 1)%nat with (S p) by lia.
   unfold Func.ftwo. ring.
 Qed.
